@@ -242,25 +242,35 @@ where
                     }
                 }
 
-                if let Some(subscription_identifier) = publish
-                    .subscription_identifier
-                    .filter(|_| !redelivery)
-                    .map(|subscription_identifier| {
-                        NonZero::from(subscription_identifier).get().value() as usize
-                    })
-                {
-                    if let Some((_, subscription)) =
-                        utils::linear_search_by_key(&session.subscriptions, subscription_identifier)
-                            .map(|pos| &mut session.subscriptions[pos])
-                    {
-                        // User may drop the receiving stream,
-                        // in that case remove it from the active subscriptions map.
-                        if (subscription.unbounded_send(RxPacket::Publish(publish))).is_err() {
-                            utils::linear_search_by_key(
-                                &session.subscriptions,
-                                subscription_identifier,
-                            )
-                            .and_then(|pos| session.subscriptions.remove(pos));
+                if !redelivery {
+                    // Route the message to the stream of every subscription it matched.
+                    let mut subscription_identifiers: Vec<usize> = Vec::new();
+                    for subscription_identifier in publish.subscription_identifier.iter() {
+                        let subscription_identifier =
+                            NonZero::from(*subscription_identifier).get().value() as usize;
+                        if !subscription_identifiers.contains(&subscription_identifier) {
+                            subscription_identifiers.push(subscription_identifier);
+                        }
+                    }
+
+                    for subscription_identifier in subscription_identifiers {
+                        if let Some((_, subscription)) = utils::linear_search_by_key(
+                            &session.subscriptions,
+                            subscription_identifier,
+                        )
+                        .map(|pos| &mut session.subscriptions[pos])
+                        {
+                            // User may drop the receiving stream,
+                            // in that case remove it from the active subscriptions map.
+                            if (subscription.unbounded_send(RxPacket::Publish(publish.clone())))
+                                .is_err()
+                            {
+                                utils::linear_search_by_key(
+                                    &session.subscriptions,
+                                    subscription_identifier,
+                                )
+                                .and_then(|pos| session.subscriptions.remove(pos));
+                            }
                         }
                     }
                 }
